@@ -201,6 +201,9 @@ class Formatter(FormatterInterface):
         b = self(r.body).split("\n")
         for line in b:
             output += f"    {line}\n"
+        if all(not line.strip() or line.strip().startswith("#") for line in b):
+            # A body with comments only is not a valid Python block
+            output += "    pass\n"
         return output
 
     @__call__.register
